@@ -55,7 +55,7 @@ impl ops::Deref for UserInfo {
 impl cmp::PartialEq for UserInfo {
 	#[inline]
 	fn eq(&self, other: &UserInfo) -> bool {
-		self.as_pct_str() == other.as_pct_str()
+		crate::utils::pct_eq(self.as_pct_str(), other.as_pct_str())
 	}
 }
 
@@ -78,14 +78,14 @@ impl PartialOrd for UserInfo {
 impl Ord for UserInfo {
 	#[inline]
 	fn cmp(&self, other: &UserInfo) -> cmp::Ordering {
-		self.as_pct_str().cmp(other.as_pct_str())
+		crate::utils::pct_cmp(self.as_pct_str(), other.as_pct_str())
 	}
 }
 
 impl Hash for UserInfo {
 	#[inline]
 	fn hash<H: hash::Hasher>(&self, hasher: &mut H) {
-		self.as_pct_str().hash(hasher)
+		crate::utils::pct_hash(self.as_pct_str(), hasher)
 	}
 }
 
